@@ -95,13 +95,19 @@ class _Tree:
 def ob_select(cx):
     C = cx.mod(CF)
     lp = cx.p("lpath")
-    nc = cx.choose("nconflicts", 0, cx.p("nconflicts"))
+    nc = cx.choose("nconflicts", cx.p("nconflicts") if cx.p("twins") else 0, cx.p("nconflicts"))
     conflicts = C.ConflictList()
     spec = []
+    twins = bool(cx.p("twins"))
     for i in range(nc):
-        kind = cx.pick("kind%d" % i, ["text", "path", "duplicate"])
-        path = cx.str("cpath%d" % i, cx.choose("lc%d" % i, 1, lp), ALPHA)
-        fid = cx.bytes("cfid%d" % i, 1, b"xyz") if cx.choose("hasfid%d" % i, 0, 1) else None
+        kind = "path" if twins else cx.pick("kind%d" % i, ["text", "path", "duplicate"])
+        if twins and i > 0:
+            # a second conflict that COMPARES EQUAL to the first one (same class, path and file id) but is another conflict:
+            # its conflict_path differs
+            path, fid = spec[0][1][0], spec[0][2][0]
+        else:
+            path = cx.str("cpath%d" % i, cx.choose("lc%d" % i, 1, lp), ALPHA)
+            fid = cx.bytes("cfid%d" % i, 1, b"xyz") if cx.choose("hasfid%d" % i, 0, 1) else None
         if kind == "text":
             c = C.TextConflict(path, file_id=fid)
             spec.append((c, [path], [fid]))
@@ -113,6 +119,8 @@ def ob_select(cx):
             spec.append((c, [path, cpath], [fid, fid2]))
         else:
             cpath = cx.str("cpath2_%d" % i, cx.choose("lc2_%d" % i, 1, lp), ALPHA)
+            if twins and i > 0:
+                cx.assume(cpath != spec[0][1][1])
             c = C.PathConflict(path, conflict_path=cpath, file_id=fid)
             spec.append((c, [path, cpath], [fid]))
         conflicts.append(c)
@@ -158,12 +166,19 @@ def ob_select(cx):
         cx.cover("kept")
     if recurse and any(want_sel):
         cx.cover("recursive")
+    if twins and want_sel[0] != want_sel[1]:
+        cx.cover("one_of_two_equal_conflicts")
 
 
 def obligations(tier):
     q = tier == "quick"
     p = dict(nconflicts=1, npaths=1, lpath=3 if q else 4, allow_empty=True)
-    return [Ob("select_conflicts", ob_select, [(CF, dict(symdict=True))], p, 900 if q else 7200, 3 if q else 1,
+    pt = dict(nconflicts=2, npaths=1, lpath=2 if q else 3, allow_empty=False, twins=True)
+    return [Ob("equal_conflicts", ob_select, [(CF, dict(symdict=True))], pt, 900 if q else 7200, 3 if q else 1,
+               ["selected", "kept", "one_of_two_equal_conflicts"], setup=setup,
+               bounds="two path conflicts with the same path and file id (they compare equal) and different conflict paths, "
+                      "symbolic paths of <= %(lpath)d chars, one path to resolve, recursion on/off" % pt),
+            Ob("select_conflicts", ob_select, [(CF, dict(symdict=True))], p, 900 if q else 7200, 3 if q else 1,
                ["selected", "kept", "recursive"], setup=setup,
                bounds="<= %(nconflicts)d conflicts (text / path conflicts) with symbolic paths of <= %(lpath)d chars and symbolic "
                       "file ids, <= %(npaths)d paths to resolve (versioned or not), recursion on/off" % p)]
